@@ -198,3 +198,48 @@ func vh_C19_L4_karn() {
 	vobserve("sampled", vb2u(sampled))
 	vcover("end")
 }
+
+// C15.L1: write-side accounting. An accepted write adds exactly its length; a write that
+// fails (association not established, or a blocking write past its deadline) leaves the
+// buffered amount and the sequence numbers as they were - ordered or unordered, DATA or I-DATA.
+func vh_C15_L1_write_accounting() {
+	il := vPick(2) == 1
+	a, _ := vNewAssocOpts(vAssocOpts{interleaving: il, blockWrite: vPick(2) == 1})
+	s, err := a.OpenStream(1, PayloadTypeWebRTCBinary)
+	vassert(err == nil, "open stream")
+	s.SetReliabilityParams(vPick(2) == 1, ReliabilityTypeReliable, 0)
+	n1 := 1 + vPick(3)
+	n, werr := s.WriteSCTP(nondetBytes(n1), PayloadTypeWebRTCBinary)
+	vassert(werr == nil && n == n1, "write accepted")
+	vassert(s.BufferedAmount() == uint64(n1) && a.BufferedAmount() == n1, "buffered amount grows by the length of an accepted write")
+	ssn, omid, umid := s.sequenceNumber, s.nextOrderedMID, s.nextUnorderedMID
+	if a.blockWrite {
+		s.writeDeadline = deadlineExceeded() // the gate is closed: this write hits its deadline
+	} else {
+		a.setState(shutdownPending)
+	}
+	n, werr = s.WriteSCTP(nondetBytes(1+vPick(3)), PayloadTypeWebRTCBinary)
+	vassert(werr != nil && n == 0, "the second write fails")
+	vassert(s.BufferedAmount() == uint64(n1) && a.BufferedAmount() == n1, "a failed write leaves the buffered amount alone")
+	vassert(s.sequenceNumber == ssn && s.nextOrderedMID == omid && s.nextUnorderedMID == umid, "and consumes no sequence number")
+	vcover("end")
+}
+
+// C15.L3b: bytes of a message that is abandoned and skipped are released too (same
+// obligation as vh_C07_L1, which ends with the sender's buffered amount at zero).
+func vh_C15_L3_abandoned_bytes_released() { vh_C07_L1_abandoned_does_not_block() }
+
+// C15.L3c: acknowledgements that arrive after the stream was closed by its writer still
+// release its buffered bytes and fire the low-threshold callback.
+func vh_C15_L3_release_after_close() {
+	f := vInFlight(2, false)
+	a := f.a
+	calls := 0
+	f.s.OnBufferedAmountLow(func() { calls++ })
+	vassert(f.s.Close() == nil, "close while data is outstanding")
+	vassert(f.s.BufferedAmount() == uint64(f.total), "closing does not change the buffered amount")
+	vassert(vDeliver(a, &chunkSelectiveAck{cumulativeTSNAck: f.base + 2, advertisedReceiverWindowCredit: 1 << 20}) == nil, "SACK ok")
+	vassert(f.s.BufferedAmount() == 0, "acknowledged bytes are released although the stream is closing")
+	vassert(calls == 1, "the low-threshold callback fires for the crossing")
+	vcover("end")
+}
